@@ -1094,8 +1094,25 @@ def rule_automata(ctx, rep, cfgs, want=('G19', 'G20'), corpus_only=False):
             if g20 is not None:
                 stats, mism = autlib.compare_dfa_graph(dfa, inv.leaves, graph, inv.root)
                 rep.analysed['product_states'] = rep.analysed.get('product_states', 0) + stats.get('product_states', 0)
+                feat = rep.analysed.setdefault('reference_features', dict(definitions=0, with_lookahead=0, with_eoi_edges=0, with_early_and_late_state=0, multi_pattern_match_states=0))
+                feat['definitions'] += 1
+                feat['with_lookahead'] += 0 if stats.get('lookahead_free') else 1
+                feat['with_eoi_edges'] += 1 if any(x['eoi'] is not None for x in graph.states.values()) else 0
+                feat['with_early_and_late_state'] += 1 if any(x['early'] is not None and x['accept'] is not None for x in graph.states.values()) else 0
+                feat['multi_pattern_match_states'] += 1 if any(len(v) > 1 for v in dfa.matches.values()) else 0
                 for x in mism[:6]:
                     rep.viol(g20, 'graph-vs-dfa:%s:%s' % (x['kind'], k), '%s, after reading "%s": %s' % (d.name, autlib.fmt_path(x['path']), x['detail']), d.name)
+    if g20 is not None and not corpus_only and not any(c.startswith('fx:') for c in cfgs):
+        automata_floors(rep, g20)
+
+
+def automata_floors(rep, rid):
+    """the comparison is only meaningful if the corpus exercises the features it is about (fail closed)"""
+    feat = rep.analysed.get('reference_features')
+    if feat is None:
+        return
+    for key, floor in (('with_lookahead', 10), ('with_eoi_edges', 10), ('with_early_and_late_state', 2), ('multi_pattern_match_states', 10)):
+        rep.anchor(rid, 'at least %d analysed definitions %s (found %d)' % (floor, key.replace('_', ' '), feat[key]), feat[key] >= floor)
 
 
 def _compare_code_graph(rep, rid, k, d, m, sm, graph, inv):
